@@ -335,6 +335,28 @@ func observeDicts(seg segment.Segment, pr *Probes, o *Obs) error {
 			}
 			od.Ents = append(od.Ents, ODictEnt{T: B(ent.Term), N: ckInt(ent.Count)})
 		}
+		// two listings of the same dictionary alive at once - a complete one and a range - advanced in turn:
+		// the complete one must enumerate what the sequential listing did, counts included
+		{
+			full := d.AutomatonIterator(nil, nil, nil)
+			part := d.AutomatonIterator(nil, []byte("a"), []byte("c"))
+			inter := []ODictEnt{}
+			for pe := part; ; {
+				ent, e := full.Next()
+				if e != nil || ent == nil {
+					break
+				}
+				inter = append(inter, ODictEnt{T: append(B{}, ent.Term...), N: ckInt(ent.Count)})
+				if pe != nil {
+					if x, e := pe.Next(); e != nil || x == nil {
+						pe = nil
+					}
+				}
+			}
+			if js(inter) != js(od.Ents) {
+				o.Errs = append(o.Errs, OErr{Asp: "dicts", Msg: fmt.Sprintf("a listing of %q interleaved with a second one enumerates %d entries differently from the listing alone", f, len(inter))})
+			}
+		}
 		terms := append([]string(nil), pr.Terms[f]...)
 		sort.Strings(terms)
 		for _, t := range terms {
